@@ -509,11 +509,28 @@ impl<TStdlib: Stdlib, TStdIn: Input, TStdOut: Printer, TLpt1: Printer>
                     Some(ctx.nearest_statement_finder.find_next(last_error_address));
                 self.context.pop();
             }
-            Instruction::ResumeLabel(resume_label) => {
+            Instruction::ResumeLabel(resume_label, for_depth, select_depth) => {
                 // not using the last error address but need to clear it which also clears the err code
                 self.take_last_error_address().with_err_at(&pos)?;
                 ctx.opt_next_index = Some(resume_label.address());
-                self.context.pop();
+                // The label belongs to the main module: abandon the error handler context and any
+                // function/sub calls that were active when the error occurred, and bring the register
+                // stack and the value stack to the state the place of the label expects.
+                self.context.truncate_states(1);
+                self.return_address_stack.clear();
+                self.stacktrace.clear();
+                self.var_path_stack.clear();
+                self.by_ref_stack.clear();
+                self.function_results.clear();
+                self.statement_snapshots.truncate(1);
+                self.register_stack.truncate(1 + for_depth);
+                while self.register_stack.len() < 1 + for_depth {
+                    self.register_stack.push(Registers::new());
+                }
+                self.value_stack.truncate(*select_depth);
+                while self.value_stack.len() < *select_depth {
+                    self.value_stack.push(Variant::VInteger(0));
+                }
             }
             Instruction::Throw(interpreter_error) => {
                 return Err(interpreter_error.clone()).with_err_at(&pos);
